@@ -25,9 +25,10 @@ Univ == { a, b, A("ab"), A(""), A("B"), C("", <<a>>), I(1), I(2), Fl(2), Fl(4), 
           C("f", <<a>>), C("f", <<V(1)>>), C("f", <<L(<<a, b>>)>>), C("f", <<PL(<<a>>, V(3))>>), C("g", <<V(1), V(2)>>), C("g", <<V(2), L(<<a>>)>>),
           C("g", <<L(<<a, b>>), L(<<a, b>>)>>), C("g", <<V(1), V(1)>>), C("g", <<a, Fl(2)>>), C("h", <<a, b, V(3)>>),
           L(<<L(<<a>>), L(<<b>>)>>), C(".", <<a>>), C(".", <<a, b, Nil>>), C("f", <<V(1), I(1)>>),
+          I(-7003), I(-7002), I(7001), I(7003), C("f", <<I(7003)>>),   \* stand for integers near the 64-bit limits (the replayer maps them, keeping the order)
           L(<<I(97), I(98)>>), C("f", <<L(<<I(97), I(98)>>)>>) }      \* the codes of "ab": a list of integers that has a compact representation, too
 CONSTANT SUB      \* TRUE: a sub-universe (quick)
-Small == { a, A("ab"), I(1), Fl(2), Fl(4), V(1), V(2), Nil, L(<<a, b>>), L(<<V(1), b>>), L(<<a, V(2)>>), L(<<V(1), V(1)>>), PL(<<a>>, V(3)), PL(<<V(1)>>, V(1)),
+Small == { I(-7003), I(7003), I(-1), a, A("ab"), I(1), Fl(2), Fl(4), V(1), V(2), Nil, L(<<a, b>>), L(<<V(1), b>>), L(<<a, V(2)>>), L(<<V(1), V(1)>>), PL(<<a>>, V(3)), PL(<<V(1)>>, V(1)),
            PL(<<a>>, b), C("f", <<V(1)>>), C("f", <<L(<<a, b>>)>>), L(<<I(97), I(98)>>), C("g", <<V(1), V(2)>>), C("g", <<V(2), L(<<a>>)>>), C("g", <<V(1), V(1)>>), C(".", <<a>>), C("h", <<a, b, V(3)>>) }
 U0 == IF SUB THEN Small ELSE Univ
 \* bindings made by an EARLIER goal (Vk = t before x and y meet): a variable of the pair may stand for a compound, a list, a partial
